@@ -138,6 +138,7 @@ func extra() {
 	t7()
 	f14()
 	t8()
+	t9()
 }
 
 // F7: per clone function of workflow/utils/clone/clone.go, the fields that are always copied (keys of
